@@ -149,8 +149,9 @@ fn note(req: &Request, st: &Arc<HState>) {
     });
 }
 
-fn build_app(cors: &str) -> (App<HState>, Arc<HState>) {
+fn build_app(cors: &str, error_pages: &str) -> (App<HState>, Arc<HState>) {
     let app: App<HState> = App::new_with_config(HState { log: Mutex::new(Vec::new()) });
+    let app = if error_pages == "empty" { app.with_error_handler(crate::props::c01::empty_error_pages) } else { app };
     let st = app.get_state();
     let cors_cfg = match cors {
         "wildcard" => Cors::wildcard(),
@@ -400,7 +401,7 @@ impl Prop for C01T {
         let clients: Vec<Client> = (0..nclients).map(|_| gen_client(&mut rng, tier, None)).collect();
         let mut sim = SimParams::draw(&mut rng, true);
         sim.rx_capacity = None;
-        let scn = Scn { sim, threads: 1, timeout_ms: None, cors: ["wildcard", "list", "none", "nested"][rng.usize_below(4)].to_string(), clients };
+        let scn = Scn { sim, threads: 1, timeout_ms: None, cors: ["wildcard", "list", "none", "nested"][rng.usize_below(4)].to_string(), clients, error_pages: if Rng::new(humsim::rng::mix(&[rng.next_u64(), 0xC01_0006])).chance(1, 4) { "empty".into() } else { String::new() } };
         serde_json::to_value(scn).unwrap()
     }
     fn execute(&self, scenario: &Value) -> RunResult {
@@ -423,7 +424,7 @@ impl Prop for C01T {
         let result = run_rt(scn.sim.seed, 7200, async move {
             tokio_net::reset(net_cfg(&scn2.sim));
             let t0 = tokio::time::Instant::now();
-            let (app, st) = build_app(&scn2.cors);
+            let (app, st) = build_app(&scn2.cors, &scn2.error_pages);
             *hs2.lock().unwrap() = Some(st);
             tokio::spawn(async move {
                 let _ = app.run(addr).await;
